@@ -8,7 +8,7 @@ from dataclasses import dataclass
 from typing import TYPE_CHECKING
 
 # Third Party Imports
-from numpy import concatenate
+from numpy import concatenate, isfinite
 from scipy.linalg import norm
 from sqlalchemy import asc
 from sqlalchemy.orm import Query
@@ -301,6 +301,11 @@ class LambertIOD(InitialOrbitDetermination):
             transit_time,
             transfer_method,
         )
+        # [NOTE]: The Lambert solvers signal divergence (e.g. Gauss' method on a wide transfer angle) with NaN.
+        if not isfinite(final_velocity).all():
+            msg = "Lambert solver did not converge"
+            return IODSolution(None, False, msg)
+
         msg = "IOD successful"
 
         return IODSolution(concatenate((final_position, final_velocity)), True, msg)
